@@ -114,15 +114,9 @@ inline long raw_futex(int* addr, int op, int val)
 
 void park(Thread* t)
 {
-  int spins = 0;
+  // no spinning: each run is pinned to one core, the waker parks right after waking us
   while (__atomic_load_n(&t->go, __ATOMIC_ACQUIRE) == 0)
   {
-    if (spins < 64)
-    {
-      ++spins;
-      __builtin_ia32_pause();
-      continue;
-    }
     raw_futex(&t->go, FUTEX_WAIT_PRIVATE, 0);
   }
   __atomic_store_n(&t->go, 0, __ATOMIC_RELAXED);
@@ -287,7 +281,7 @@ Thread* choose(Thread* me, bool can_continue, uint8_t kind)
   }
   else if (g_cfg.policy == POLICY_PCT)
   {
-    if (me && (kind == K_YIELD || me->run_streak > 3000))
+    if (me && (kind == K_YIELD || kind == K_SLEEP || me->run_streak > 200))
     {
       me->prio = g_pct_low--;
       me->run_streak = 0;
@@ -406,7 +400,9 @@ void step_common(Thread* me, uint8_t kind, uint64_t value)
   ++g_seq;
   ++me->yields;
   ++g_stats.kind_count[kind < K_KIND_MAX ? kind : 0];
-  g_now += g_cfg.delta_ns;
+  // fair phase: "faults stop, schedule is fair, time moves" — a coarser tick keeps every wait that
+  // depends on elapsed time (the ordering grace period) within a few thousand steps
+  g_now += (g_fair && g_cfg.delta_ns < 250) ? 250 : g_cfg.delta_ns;
   mix((static_cast<uint64_t>(me->id) << 8) | kind);
   mix(value);
   mix(g_now);
